@@ -195,13 +195,21 @@ impl Report {
         v.signature
       ));
     }
-    // minimum-observation rule
+    // minimum-observation rule: a run that observed too little is inconclusive as a whole (exit 2);
+    // single cases that could not be judged (watchdog, harness-side failure) are reported and recorded but
+    // do not change the exit code as long as the required observations were made and they stay a small minority
     let mut inconclusive = acc.inconclusive.clone();
+    let mut run_inconclusive = false;
     for (k, min) in self.required.iter().filter(|_| self.args.replay.is_none()) {
       let got = acc.counters.get(k).copied().unwrap_or(0);
       if got < *min {
         inconclusive.push(format!("counter {k}={got} below required {min}"));
+        run_inconclusive = true;
       }
+    }
+    if acc.inconclusive.len() as u64 > (acc.evaluations / 10).max(3) {
+      inconclusive.push(format!("{} cases could not be judged (more than a tenth of the run)", acc.inconclusive.len()));
+      run_inconclusive = true;
     }
     let mut cov = serde_json::Map::new();
     cov.insert("evaluations".into(), json!(acc.evaluations.max(0)));
@@ -267,10 +275,10 @@ impl Report {
     if !new_violations.is_empty() {
       return 1;
     }
-    if !inconclusive.is_empty() {
-      for r in &inconclusive {
-        println!("INCONCLUSIVE property={id} reason={r}");
-      }
+    for r in &inconclusive {
+      println!("{} property={id} reason={r}", if run_inconclusive { "INCONCLUSIVE" } else { "INCONCLUSIVE-CASE" });
+    }
+    if run_inconclusive {
       return 2;
     }
     0
